@@ -137,6 +137,17 @@ fn step_dt(acc: &mut Acc, inst: i128, d: i128, offs: &[i32]) {
                 (op, got) => acc.violation("DateTime:operator-vs-checked", format!("DateTime({}Z, offset {}) {} TimeDelta({} ns)", show(inst), o, if neg { "-" } else { "+" }, d), format!("{:?}", got), format!("{:?}", op)),
             }
         }
+        // distances between the same two instants read at different offsets: by value, by reference, and through
+        // signed_duration_since — all must be the exact instant distance
+        if let Some(f) = firsts {
+            let other = fo.from_utc_datetime(&mk_ndt_inst(if inst_ok(inst + d) { inst + d } else { inst }));
+            let want = if inst_ok(inst + d) { d } else { 0 };
+            acc.transitions += 4;
+            let got = [delta_ns(other - f), delta_ns(other - &f), delta_ns(other.signed_duration_since(f)), -delta_ns(f - &other)];
+            if got.iter().any(|g| *g != want) {
+                acc.violation("DateTime:difference-across-offsets", format!("DateTime({}Z at offset {}) - DateTime({}Z at offset {}) [by value, by reference, signed_duration_since, reversed]", show(inst + want), o, show(inst), f.offset().local_minus_utc()), format!("{} ns each", want), format!("{:?}", got));
+            }
+        }
         if firsts.is_none() {
             firsts = Some(dt);
         }
